@@ -143,7 +143,7 @@ func (r *FileReader) SkipNext() error {
 		return SkipNextV3(r)
 	} else {
 		start := r.reader.Count()
-		payloadSizeUncompressed, payloadSizeCompressed, _, err := readRecordHeaderV4(r.recordHeaderByteReader)
+		payloadSizeUncompressed, payloadSizeCompressed, recordNil, err := readRecordHeaderV4(r.recordHeaderByteReader)
 		if err != nil {
 			return fmt.Errorf("error while reading record header of '%s': %w", r.file.Name(), err)
 		}
@@ -151,6 +151,10 @@ func (r *FileReader) SkipNext() error {
 		expectedBytesSkipped := payloadSizeUncompressed
 		if r.header.compressor != nil {
 			expectedBytesSkipped = payloadSizeCompressed
+		}
+		// a nil record has no payload in the file, even though its header carries the size of the compressed nil
+		if recordNil {
+			expectedBytesSkipped = 0
 		}
 
 		// here we have to add the header to the offset too, otherwise we will seek not far enough
